@@ -234,6 +234,22 @@ def check_text_renderer(m, which, doc, fails):
                 and not _missing_without_marker(md, ast_md, doc, which):
             f["class"] = "rst-linebreak-marker-in-band"
         fails.append(f)
+    else:
+        # the output is an image of the token tree: the token list of the renderer-less converter, handed to a renderer of the same
+        # kind together with its state - and handed to it a second time -, gives the string of the one-step conversion
+        # (seeded change C06_m12: a renderer that keeps what an earlier rendering of the same state collected)
+        import copy
+        try:
+            toks2, state2 = ast_md.parse(doc)
+            r2 = type(r)()
+            for attempt in (1, 2):
+                got = r2(copy.deepcopy(toks2), state2)
+                if got != out:
+                    fails.append({"input": doc, "config": which, "kind": "token-list-rendered-again-differs",
+                                  "detail": ["rendering #%d of the token list" % attempt, got[:600]], "html": out[:1500]})
+                    break
+        except Exception:  # noqa  (C01's business)
+            pass
     return True
 
 
@@ -341,7 +357,7 @@ def oracle(ctx, extra):
                     "plugins / all+speedup / footnotes+table+task_lists+fenced directives, escape on 75%, hard_wrap 25%; HTML "
                     "checked for strict nesting (escape on), every leaf of the renderer-less token list searched escaped and in "
                     "order, rendering that token list compared with direct conversion; every 4th iteration a core document "
-                    "through the Markdown or RST renderer with per-line leaf search; every 9th a table-of-contents directive (fenced or RST style) over a random sequence of 1-7 heading levels, strict nesting only; distinct by text",
+                    "through the Markdown or RST renderer with per-line leaf search, and the renderer-less token list rendered twice with its state compared with that output; every 9th a table-of-contents directive (fenced or RST style) over a random sequence of 1-7 heading levels, strict nesting only; distinct by text",
             "samples": [json.dumps(gen_docs.doc(ctx.rng('s'), plugins=gen_docs.ALL_PLUGINS))[:300]]}
 
 
